@@ -367,35 +367,35 @@ func init() {
 		return ex.timeNow()
 	})
 	reg("(time.Time).Sub", func(ex *Exec, fr *Frame, site ssa.Instruction, a []Value) Value {
-		return tBVSub(a[0].(Struct)[1].(*Term), a[1].(Struct)[1].(*Term))
+		return tmSub(a[0].(Struct)[1].(*Term), a[1].(Struct)[1].(*Term))
 	})
 	reg("time.Since", func(ex *Exec, fr *Frame, site ssa.Instruction, a []Value) Value {
 		n := ex.timeNow()
-		return tBVSub(n[1].(*Term), a[0].(Struct)[1].(*Term))
+		return tmSub(n[1].(*Term), a[0].(Struct)[1].(*Term))
 	})
 	reg("time.Until", func(ex *Exec, fr *Frame, site ssa.Instruction, a []Value) Value {
 		n := ex.timeNow()
-		return tBVSub(a[0].(Struct)[1].(*Term), n[1].(*Term))
+		return tmSub(a[0].(Struct)[1].(*Term), n[1].(*Term))
 	})
 	reg("(time.Time).UnixNano", func(ex *Exec, fr *Frame, site ssa.Instruction, a []Value) Value {
 		return a[0].(Struct)[1]
 	})
 	reg("(time.Time).UnixMilli", func(ex *Exec, fr *Frame, site ssa.Instruction, a []Value) Value {
-		return tBVSDiv(a[0].(Struct)[1].(*Term), mkBV(SBV64, 1000000))
+		return newTerm("div", SInt, tmInt(a[0].(Struct)[1].(*Term)), mkInt(1000000))
 	})
 	reg("(time.Time).Add", func(ex *Exec, fr *Frame, site ssa.Instruction, a []Value) Value {
 		t := copyVal(a[0]).(Struct)
-		t[1] = tBVAdd(t[1].(*Term), a[1].(*Term))
+		t[1] = tIntAdd(tmInt(t[1].(*Term)), tmInt(a[1].(*Term)))
 		return t
 	})
 	reg("(time.Time).After", func(ex *Exec, fr *Frame, site ssa.Instruction, a []Value) Value {
-		return tBVSlt(a[1].(Struct)[1].(*Term), a[0].(Struct)[1].(*Term))
+		return tIntCmp("<", tmInt(a[1].(Struct)[1].(*Term)), tmInt(a[0].(Struct)[1].(*Term)))
 	})
 	reg("(time.Time).Before", func(ex *Exec, fr *Frame, site ssa.Instruction, a []Value) Value {
-		return tBVSlt(a[0].(Struct)[1].(*Term), a[1].(Struct)[1].(*Term))
+		return tIntCmp("<", tmInt(a[0].(Struct)[1].(*Term)), tmInt(a[1].(Struct)[1].(*Term)))
 	})
 	reg("(time.Time).IsZero", func(ex *Exec, fr *Frame, site ssa.Instruction, a []Value) Value {
-		return tEq(a[0].(Struct)[1].(*Term), mkBV(SBV64, 0))
+		return tEq(tmInt(a[0].(Struct)[1].(*Term)), mkInt(0))
 	})
 	reg("(time.Time).Format", func(ex *Exec, fr *Frame, site ssa.Instruction, a []Value) Value {
 		return ex.fresh("timefmt", SStr)
@@ -429,7 +429,7 @@ func init() {
 		st := zero(tt).(Struct)
 		st[fieldIndex(tt, "C")] = c
 		p := newPtr(st)
-		ev := &envEvent{label: fmt.Sprintf("ticker#%d", c.id), armed: true}
+		ev := &envEvent{label: fmt.Sprintf("ticker#%d", c.id), armed: ex.hctx["tickersOn"] == true}
 		ev.fire = func() {
 			ev.fires++
 			if ev.fires >= 2 {
@@ -505,6 +505,16 @@ func init() {
 	// ---- crypto/rand ----
 	reg("crypto/rand.Read", func(ex *Exec, fr *Frame, site ssa.Instruction, a []Value) Value {
 		s := a[0].(Slice)
+		if ex.hctx["randConcrete"] == true {
+			// distinct concrete bytes per call (harness asked for concrete session ids)
+			n, _ := ex.hctx["randCalls"].(int)
+			ex.hctx["randCalls"] = n + 1
+			for i := 0; i < s.n; i++ {
+				s.a[i] = mkBV(SBV8, uint64((n*37+i*11+5)&0xff))
+			}
+			ex.hctx["usedCryptoRand"] = true
+			return Tuple{bvInt(int64(s.n)), Iface{}}
+		}
 		for i := 0; i < s.n; i++ {
 			s.a[i] = ex.namedVar("rand", SBV8, "rand")
 		}
@@ -519,19 +529,28 @@ func (ex *Exec) recordEnv(kind string, v Value) {
 	ex.hctx["envcalls"] = append(l, v)
 }
 
-// timeNow returns an arbitrary non-decreasing instant (DESIGN 2.6).
+// timeNow returns an arbitrary non-decreasing instant (DESIGN 2.6); nanoseconds as an Int-backed value.
 func (ex *Exec) timeNow() Struct {
-	t := ex.namedVar("now", SBV64, "clock")
+	t := ex.namedVar("now", SInt, "clock")
+	t.HasRng, t.Lo, t.Hi = true, 0, 1<<62
 	if last, ok := ex.hctx["lastNow"].(*Term); ok {
-		ex.assume(tBVSle(last, t))
+		ex.assume(tIntCmp("<=", last, t))
 	} else {
-		ex.assume(tBVSle(mkBV(SBV64, 0), t))
+		ex.assume(tIntCmp("<=", mkInt(0), t))
 	}
 	// keep instants far from overflow: < 2^62 ns
-	ex.assume(tBVSlt(t, mkBV(SBV64, 1<<62)))
+	ex.assume(tIntCmp("<", t, mkInt(1<<62)))
 	ex.hctx["lastNow"] = t
 	return Struct{mkBV(SBV64, 0), t, nilPtr}
 }
+
+func tmInt(t *Term) *Term {
+	if t.Sort == SInt {
+		return t
+	}
+	return tBVToInt(t, true)
+}
+func tmSub(a, b *Term) *Term { return tIntSub(tmInt(a), tmInt(b)) }
 
 // ctxWithDeadline = WithCancel(parent) whose cancel may also be triggered by the environment
 // (deadline expiry) with context.DeadlineExceeded.
